@@ -278,3 +278,44 @@ func (p *Program) typeByName(name string) types.Type {
 	}
 	return found
 }
+
+// returnsNonNil: every return of fn yields, at result index i, a freshly
+// allocated object (or the result of another such function).
+func (p *Program) returnsNonNil(fn *ssa.Function, i int, depth int) bool {
+	if depth > 4 || len(fn.Blocks) == 0 {
+		return false
+	}
+	found := false
+	for _, b := range fn.Blocks {
+		for _, ins := range b.Instrs {
+			r, ok := ins.(*ssa.Return)
+			if !ok {
+				continue
+			}
+			if i >= len(r.Results) {
+				return false
+			}
+			found = true
+			switch v := r.Results[i].(type) {
+			case *ssa.Alloc, *ssa.MakeClosure, *ssa.MakeMap, *ssa.MakeChan, *ssa.Function:
+			case *ssa.Call:
+				c := v.Common().StaticCallee()
+				if c == nil || !p.returnsNonNil(c, 0, depth+1) {
+					return false
+				}
+			case *ssa.Extract:
+				cl, ok := v.Tuple.(*ssa.Call)
+				if !ok {
+					return false
+				}
+				c := cl.Common().StaticCallee()
+				if c == nil || !p.returnsNonNil(c, v.Index, depth+1) {
+					return false
+				}
+			default:
+				return false
+			}
+		}
+	}
+	return found
+}
